@@ -63,6 +63,19 @@ theorem sig_complete (entries : List (Entry K S)) (hl : entries.length ≤ TX_MA
   rw [if_neg (by omega)]
   exact checkEntries_complete wf verify addr1 addrM entries (fun e he => ⟨hv e he, hu e he⟩)
 
+/-- Completeness for key lists that repeat a key: it suffices that none of the first m signatures verifies under two
+    DIFFERENT listed keys (it may verify under several positions listing the same key) — the assumption every
+    signature scheme is built to meet. Proof: exchange argument on the greedy scan. -/
+theorem sig_complete_repeated_keys [DecidableEq K] (entries : List (Entry K S)) (hl : entries.length ≤ TX_MAX_SIG_SIZE)
+    (hv : ∀ e ∈ entries, EntryOK wf verify e)
+    (hu : ∀ e ∈ entries, ∀ s ∈ e.sigs.take e.m, ∀ q q' (hq : q < e.keys.length) (hq' : q' < e.keys.length),
+      verify e.keys[q] s = true → verify e.keys[q'] s = true → e.keys[q] = e.keys[q']) :
+    ∃ addrs, checkTransactionSignatures wf verify addr1 addrM entries = .ok addrs := by
+  refine ⟨entries.map (entryAddr addr1 addrM), ?_⟩
+  unfold checkTransactionSignatures
+  rw [if_neg (by omega)]
+  exact checkEntries_complete' wf verify addr1 addrM entries (fun e he => ⟨hv e he, hu e he⟩)
+
 /-- The signer addresses attributed to the transaction (the key set of the Go map, i.e. `dedup`) are exactly the
     addresses of the entries: the single key's address for a one-key entry, the (keys, m) program address otherwise;
     each appears once. -/
